@@ -91,21 +91,33 @@ CLAIMED = {
     "C06": ("Lean theorems about the chain walk for paths of any length: the target is reported valid iff every "
             "link on its path verifies against its certifier (root of trust for the topmost one); otherwise the "
             "element named is the first one from the root down that does not verify and everything above it does; "
-            "the verdict depends on the target's own path only. linkValid is abstract; in the correspondence runs "
-            "it is a per-case table computed with an independent implementation (python-ecdsa + explicit point "
-            "addition for the HMAC tweak) while the code under test uses the secp256k1 binding; compared with "
+            "the verdict depends on the target's own path only; and link by link (valid_iff_conditions, "
+            "linkValid_iff): the model of the element's is_valid (Admin/CertLinks.lean) makes a link valid exactly "
+            "when its signature verifies under the certifier's key - under the key tweaked by HMAC-SHA256(tweak, "
+            "key) whenever the element declares a tweak, and then only under that one. In the correspondence runs "
+            "the primitive facts of each link (tweak declared, signature verifies under the plain key, under the "
+            "tweaked key) are computed with an independent implementation (python-ecdsa + explicit point "
+            "addition for the HMAC tweak) while the code under test uses the secp256k1 binding, the Lean model "
+            "combines them, and the verdicts are compared with "
             "HSMCertificate.validate_and_get_values on real-key certificates and all single-point corruptions.",
-            "partial: ECDSA/HMAC/SHA-256 are uninterpreted (unforgeability is not a theorem); key extraction and "
-            "tweak wiring are checked by the independent oracle, not proved"),
+            "partial: ECDSA/HMAC/SHA-256 are uninterpreted (unforgeability is not a theorem); key extraction "
+            "from the certifier's message is done by the independent fact provider, not proved"),
     "C07": ("The chain theorems of C06 (valid iff every link verifies, first failing element named, path-only "
             "dependence) hold for version-2 certificates, which use the same walk; report-data offsets (320 in a "
-            "report body, 368 in a quote) are checked. The per-link conditions (X.509 validity window + issuer "
-            "signature, attestation-key and quote report-data bindings + certifier signature, P-256 only) are "
-            "the abstract linkValid, instantiated per case by an independent implementation that uses the two "
-            "crypto libraries the other way round than the code under test; compared with "
-            "HSMCertificateV2.validate_and_get_values on freshly generated chains and all corruption classes.",
-            "partial: cryptographic soundness is an assumption; per-link wiring is checked by the independent "
-            "oracle, not proved; `now` is the wall clock"),
+            "report body, 368 in a quote) are checked. The per-link conditions are modelled (Admin/CertLinks.lean: "
+            "the is_valid of the X.509, attestation-key and quote elements over primitive library facts) and "
+            "proved equivalent to the property's wording (linkValid_iff, quote_valid_iff_conditions): the quote is "
+            "reported valid iff every X.509 element has an X.509 certifier, lies inside its validity period "
+            "(notBefore <= now <= notAfter, at the clock's resolution) and is signed by it, the attestation key is "
+            "bound to its report data and signed by a certifier that has a P-256 key, and the quote is bound to its "
+            "custom data and signed by the attestation key. The primitive facts (signature verifies, SHA-256 "
+            "binding matches, validity bounds in microseconds, certifier has a key) are computed per case by an "
+            "independent implementation that uses the two crypto libraries the other way round than the code "
+            "under test, the Lean model combines them, and the verdicts are compared with "
+            "HSMCertificateV2.validate_and_get_values on freshly generated chains, all corruption classes and "
+            "clocks frozen at the edges of each validity period.",
+            "partial: cryptographic soundness is an assumption; the primitive facts come from the independent "
+            "fact provider (harness/sgxgen.py), not from a proof; `now` is a parameter"),
     "C08": ("Lean theorems about the decision functions of both verify commands: the powHSM message is accepted "
             "only with its header and exactly header+115 bytes and its fields are the slices at the documented "
             "offsets; the SGX command finishes without error only if (and if) the quote target is valid, the "
